@@ -262,6 +262,29 @@ theorem compareKind_sound {env : Env} {st : Settings} {kb kc : TypeKind} {ch : L
     · exact .inl hc
     · refine .inr ?_
       cases kb <;> cases kc <;> simp at h hc ⊢
-      all_goals sorry
+      case int.int => exact h.1.symm
+      case array.array => subst h; exact hV _ (by simp)
+      case tuple.tuple bf cf =>
+        by_cases hl : bf.length = cf.length
+        · simp only [hl, if_true, Prod.mk.injEq, true_and] at h
+          subst h
+          exact zip_pairAll bf cf hl hV
+        · simp [hl] at h
+      case enum.enum bv cv =>
+        obtain ⟨⟨⟨hmiss, _⟩, hfst⟩, hsnd⟩ := h
+        intro d bf hd
+        have hmem := alookup_mem hd
+        have hk := hmiss d bf hmem
+        unfold hasKey at hk
+        cases hcf : alookup d cv with
+        | none => simp [hcf] at hk
+        | some cf =>
+          refine ⟨cf, rfl, ?_⟩
+          have hp : enumPairs cv bv = (true, ch) := by
+            rw [← hfst, ← hsnd]
+          obtain ⟨hl, hz⟩ := enumPairs_spec cv bv ch hp d bf hmem cf hcf
+          exact zip_pairAll bf cf hl (fun p hp' => hV p (hz p hp'))
+      case map.map => subst h; exact ⟨hV _ (by simp), hV _ (by simp)⟩
+      case custom.custom => exact h.1.symm
 
 end Radix.Schema
